@@ -1,5 +1,6 @@
 from __future__ import print_function
 import string
+import ast
 import logging
 from bisect import bisect
 from ast import Name as AstName, Attribute, Call, FunctionDef, ClassDef, Lambda
@@ -339,6 +340,31 @@ class SourceScope(Scope):
 
         return result
 
+    @cached_property
+    def explicit_exports(self):
+        # type: () -> set[str]
+        """Names the module lists in `__all__` by string literals (assignment, +=, append, extend)"""
+        result = set()  # type: set[str]
+        for node in ast.walk(self.source.tree):  # also under if / try at module level
+            value = None
+            if isinstance(node, (ast.Assign, ast.AugAssign)):
+                targets = node.targets if isinstance(node, ast.Assign) else [node.target]
+                if any(isinstance(t, ast.Name) and t.id == '__all__' for t in targets):
+                    value = node.value
+            elif (isinstance(node, ast.Expr) and isinstance(node.value, ast.Call)
+                    and isinstance(node.value.func, ast.Attribute)
+                    and node.value.func.attr in ('append', 'extend')
+                    and isinstance(node.value.func.value, ast.Name)
+                    and node.value.func.value.id == '__all__' and node.value.args):
+                value = node.value.args[0]
+            if value is not None:
+                for n in ast.walk(value):
+                    # Constant (python 3.8+) or Str
+                    s = getattr(n, 'value', None) if type(n).__name__ == 'Constant' else getattr(n, 's', None)
+                    if isinstance(s, str):
+                        result.add(s)
+        return result
+
     def resolve_star_imports(self, project):
         # type: (Project) -> None
         self._project = project
@@ -349,9 +375,15 @@ class SourceScope(Scope):
             except ImportError:
                 continue
 
+            exported = None
             for name in iterkeys(module._attrs):
-                if not name.startswith('_'):
-                    flow.add_name(ImportedName(name, loc, declared_at, mname, name, True))
+                if name.startswith('_'):
+                    # a star import binds underscore names only when __all__ lists them
+                    if exported is None:
+                        exported = module.explicit_exports
+                    if name not in exported:
+                        continue
+                flow.add_name(ImportedName(name, loc, declared_at, mname, name, True))
 
         self._star_imports[:] = []
 
